@@ -110,7 +110,15 @@ def enclosing_sorted_loop(ctx, ins):
             it = n.iter
             if isinstance(it, ast.Call) and len(it.args) == 1 and not it.keywords and C.is_ext_call(ctx, it, ins.fn, ("builtins.sorted",)):
                 return n
+            sl = C.sorted_listing_generator(ctx, ins.fn, it)
+            if sl is not None and sl[1] is None:
+                return n
             return None
+        if isinstance(n, ast.For) and isinstance(n.target, ast.Tuple) and any(isinstance(t, ast.Name) and t.id == k for t in n.target.elts):
+            # for name, entry in <generator over a sorted listing>: the keys arrive in the order of the names
+            sl = C.sorted_listing_generator(ctx, ins.fn, n.iter)
+            pos = [i for i, t in enumerate(n.target.elts) if isinstance(t, ast.Name) and t.id == k][0]
+            return n if sl is not None and sl[1] == pos else None
     return None
 
 
@@ -839,7 +847,7 @@ def hash_kinds(ctx, pt):
                             ctx.violated("C06.6", f, "'pieces root' can receive %s values" % sorted(hs - {"hashlib.sha256"}), v)
                         else:
                             ctx.undecided("C06.6", f, "origin of 'pieces root' not understood", v)
-    ctx.floor("hash-bearing stores inspected", 8, n)
+    ctx.floor("hash-bearing stores inspected", 3, n)
 
 
 def run(ctx):
